@@ -31,8 +31,10 @@ EXTENDS Integers, Sequences, FiniteSets, TLC, Json, IOUtils
 CONSTANT Contextual
 Graphs == JsonDeserialize(IOEnv.VERIF_CASES)
 NG == Len(Graphs)
-VARIABLES gid, memo, last
-mvars == <<gid, memo, last>>
+VARIABLES gid, memo,
+          fresh,      \* the tables of a fresh analysis, computed once per graph
+          bad         \* the first query whose answer differed from them (<<>> = none)
+mvars == <<gid, memo, fresh, bad>>
 
 Reg(r) == Graphs[gid].regions[r]
 NR == Len(Graphs[gid].regions)
@@ -94,16 +96,17 @@ Fresh(r, a) == FlowAttr(r, a, Start(EmptyMemo)).v
 
 MInit == /\ gid \in 1..NG
          /\ memo = EmptyMemo
-         /\ last = [r |-> 0, a |-> "", v |-> {}, fresh |-> {}]
+         /\ fresh = [k \in Keys |-> Fresh(k[1], k[2])]
+         /\ bad = <<>>
 Ask(r, a) ==
   LET q == FlowAttr(r, a, Start(memo)) IN
   /\ memo' = q.st.memo
-  /\ last' = [r |-> r, a |-> a, v |-> q.v, fresh |-> Fresh(r, a)]
-  /\ UNCHANGED gid
+  /\ bad' = IF bad = <<>> /\ q.v # fresh[<<r, a>>] THEN <<r, a, q.v, fresh[<<r, a>>]>> ELSE bad
+  /\ UNCHANGED <<gid, fresh>>
 MNext == \E k \in Keys : Ask(k[1], k[2])
 MSpec == MInit /\ [][MNext]_mvars
 
-HistoryIndependent == last.v = last.fresh
+HistoryIndependent == bad = <<>>
 \* the fresh tables themselves, for the comparison with the real code (printed once per graph)
-EmitFresh == (last.r = 0) => PrintT(ToJson([gid |-> Graphs[gid].id, fresh |-> [r \in 1..NR |-> [n |-> Fresh(r, "names"), p |-> Fresh(r, "pnames")]]]))
+EmitFresh == (memo = EmptyMemo) => PrintT(ToJson([gid |-> Graphs[gid].id, fresh |-> [r \in 1..NR |-> [n |-> fresh[<<r, "names">>], p |-> fresh[<<r, "pnames">>]]]]))
 =============================================================================
